@@ -7,6 +7,7 @@ WE = 'src/geo/weather.rs'
 CO = 'src/geo/coordinates.rs'
 MAIN = 'src/main.rs'
 MOD = 'src/prayer_times/mod.rs'
+HJ = 'src/hijri_date.rs'
 VARIANTS = [
     # ---------------------------------------------------------------- C08
     dict(id='c08-near-lat-drop-is-err', property='C08', expect=r'R8\.[23]', edits=[(EL,
@@ -282,4 +283,32 @@ pub struct Temperature(f64);""")]),
             return Ok(Self::new(value));
         }
         Err(OutOfRangeError(range))""")]),
+
+    # ---------------------------------------------------------------- C17
+    dict(id='c17-year-length-355', property='C17', expect=r'R17\.[23]', edits=[(HJ, '+ 354. * (year - 1.)', '+ 355. * (year - 1.)')]),
+    dict(id='c17-month-offset-ceil', property='C17', expect=r'R17\.[24]', edits=[(HJ, '+ (month / 2.).floor()', '+ ((month + 1.) / 2.).floor()')]),
+    dict(id='c17-leap-days-term', property='C17', expect=r'R17\.[23]', edits=[(HJ, '+ ((3. + 11. * year) / 30.).floor()', '+ ((4. + 11. * year) / 30.).floor()')]),
+    dict(id='c17-century-rule', property='C17', expect=r'R17\.1', edits=[(HJ, '- (y_1 / 100.).floor()', '- (y_1 / 1000.).floor()')]),
+    dict(id='c17-forward-guard-gt', property='C17', expect=r'R17\.3', edits=[(HJ, 'while greg_date >= Self::hijri_abs_date(1, 1, year + 1) {', 'while greg_date > Self::hijri_abs_date(1, 1, year + 1) {')]),
+    dict(id='c17-backward-guard-le', property='C17', expect=r'R17\.3', edits=[(HJ, 'while greg_date < Self::hijri_abs_date(1, 1, year) {', 'while greg_date <= Self::hijri_abs_date(1, 1, year) {')]),
+    dict(id='c17-leap-abs', property='C17', expect=r'R17\.6', edits=[(HJ, '(11 * year + 14).rem_euclid(30) < 11', '((11 * year).abs() + 14) % 30 < 11')]),
+    dict(id='c17-leap-truncated-rem', property='C17', expect=r'R17\.6', edits=[(HJ, '(11 * year + 14).rem_euclid(30) < 11', '(11 * year + 14) % 30 < 11')]),
+    dict(id='c17-leap-threshold', property='C17', expect=r'R17\.6', edits=[(HJ, '(11 * year + 14).rem_euclid(30) < 11', '(11 * year + 14).rem_euclid(30) < 10')]),
+    dict(id='c17-leap-offset', property='C17', expect=r'R17\.6', edits=[(HJ, '(11 * year + 14).rem_euclid(30) < 11', '(11 * year + 15).rem_euclid(30) < 11')]),
+    dict(id='c17-month-guard-ge', property='C17', expect=r'R17\.4', edits=[(HJ, 'while greg_date > Self::hijri_abs_date(Self::days_in_month(month, year), month, year) {',
+                                                                             'while greg_date >= Self::hijri_abs_date(Self::days_in_month(month, year), month, year) {')]),
+    dict(id='c17-month-parity', property='C17', expect=r'R17\.5', edits=[(HJ, 'if month % 2 != 1 && (month != 12', 'if month % 2 != 0 && (month != 12')]),
+    dict(id='c17-leap-month-11', property='C17', expect=r'R17\.5', edits=[(HJ, 'if month % 2 != 1 && (month != 12', 'if month % 2 != 1 && (month != 10')]),
+    dict(id='c17-weekday-zero-based', property='C17', expect=r'R17\.8', edits=[(HJ, 'let weekday = ((greg_date % 7).abs() + 1) as u8;', 'let weekday = ((greg_date % 7).abs()) as u8;')]),
+    dict(id='c17-weekday-shifted', property='C17', expect=r'R17\.[18]', edits=[(HJ, 'let weekday = ((greg_date % 7).abs() + 1) as u8;', 'let weekday = (((greg_date + 1) % 7).abs() + 1) as u8;')]),
+    dict(id='c17-bh-year-off-by-one', property='C17', expect=r'R17\.9', edits=[(HJ, 'year = -(year - 1);', 'year = -year;')]),
+    dict(id='c17-bh-flag-strict', property='C17', expect=r'R17\.9', edits=[(HJ, 'if year <= 0 {\n            pre_epoch = true;', 'if year < 0 {\n            pre_epoch = true;')]),
+    dict(id='c17-era-swapped', property='C17', expect=r'R17\.13', edits=[(HJ, 'if self.pre_epoch { "B.H." } else { "A.H." }', 'if self.pre_epoch { "A.H." } else { "B.H." }')]),
+    dict(id='c17-display-order', property='C17', expect=r'R17\.13', edits=[(HJ, '            self.day,\n            self.year,\n            if self.pre_epoch', '            self.year,\n            self.day,\n            if self.pre_epoch')]),
+    dict(id='c17-day-zero-based', property='C17', expect=r'R17\.2', edits=[(HJ, 'let day = (greg_date - Self::hijri_abs_date(1, month, year) + 1) as u8;', 'let day = (greg_date - Self::hijri_abs_date(1, month, year)) as u8;')]),
+    dict(id='c17-day-table-swapped', property='C17', expect=r'R17\.1[03]', edits=[(HJ, '            6 => Ok(Jumaah),\n            7 => Ok(Sabt),', '            6 => Ok(Sabt),\n            7 => Ok(Jumaah),')]),
+    dict(id='c17-epoch-thursday', property='C17', expect=r'R17\.[23]', edits=[(HJ, 'const HIJRI_EPOCH: i32 = 227015;', 'const HIJRI_EPOCH: i32 = 227014;')]),
+    dict(id='c17-accessor-wrong-field', property='C17', expect=r'R17\.1[23]', edits=[(HJ, '    pub fn day(&self) -> u8 {\n        self.day\n    }', '    pub fn day(&self) -> u8 {\n        self.month\n    }')]),
+    dict(id='c17-refactor-silent', property='C17', expect=None, edits=[(HJ, 'let y_1 = (date.year() - 1) as f64;', 'let y_1 = f64::from(date.year()) - 1.;'),
+                                                                        (HJ, 'year = -(year - 1);', 'year = 1 - year;')]),
 ]
